@@ -8,6 +8,7 @@ import (
 	"sort"
 
 	"engcheck/core"
+	"golang.org/x/tools/go/cfg"
 )
 
 // Term is one signed summand of a linear integer expression.
@@ -240,3 +241,5 @@ func lookupConstInt(obj types.Object) (int64, bool) {
 }
 
 func sortStrings(s []string) { sort.Strings(s) }
+
+type cfgBlock = cfg.Block
